@@ -17,6 +17,7 @@ import DustVerif.Driver.Rtps
 import DustVerif.Driver.Wrt
 import DustVerif.Driver.CFilter
 import DustVerif.Driver.Receiver
+import DustVerif.Driver.AckWait
 open DustVerif.Driver
 
 partial def loopStateless (h : IO.FS.Stream) (out : IO.FS.Stream) (f : String → String) : IO Unit := do
@@ -55,5 +56,6 @@ def main (args : List String) : IO UInt32 := do
   | ["wrt"] => loopStateful stdin stdout WrtEngine.step WrtEngine.initSt; return 0
   | ["cfilter"] => loopStateful stdin stdout CFilterEngine.step CFilterEngine.init; return 0
   | ["fuzzdg"] => loopStateful stdin stdout ReceiverEngine.step ReceiverEngine.init; return 0
+  | ["ackw"] => loopStateful stdin stdout AckWaitEngine.step AckWaitEngine.init; return 0
   | ["hist"] => loopStateful stdin stdout HistEngine.step HistEngine.defaultSt; return 0
   | _ => IO.eprintln "usage: dustmodel <engine>"; return 2
